@@ -228,4 +228,4 @@ def get(ctx, fam):
         f = families_extra.get(ctx, fam)
     _CACHE[key] = f
     return f
-ALL_FAMILIES = ["general", "replies", "epcfg", "attrs", "generic", "alias", "names", "shadow"]
+ALL_FAMILIES = ["general", "replies", "epcfg", "attrs", "generic", "alias", "names", "shadow", "wide"]
